@@ -16,6 +16,7 @@ import (
 	"os"
 	"path/filepath"
 	"sort"
+	"strings"
 	"sync/atomic"
 
 	"github.com/tailscale/setec/acl"
@@ -740,6 +741,20 @@ var BaseNames = []string{"a", "b", "dev/c"}
 var OddNames = []string{"", "_internal/x", "a ", " dev/c", "_internal/a", "_internal", "_internalx",
 	// differs from a base name in letter case only: names are compared byte for byte
 	"A", "Dev/c"}
+
+// ExoticNames are legal secret names with unusual content. The service treats names as opaque
+// strings (non-empty, valid UTF-8, not under the reserved prefix), so each of them must behave
+// exactly like "a": bytes that JSON or HTML must escape, non-ASCII text, characters that mean
+// something to fmt, to regular expressions or to path cleaning, names that look like another
+// name plus a version number, and words the implementation uses internally as keys.
+var ExoticNames = []string{"a\nb", "a\tb", "k\x00", "\x1bx", "clé-privée", "秘密/鍵", "prod/db password", "100%", "%s", "%%",
+	"a/2", "a/1", "b/1", "dev//c", "dev/c/", "dev/./c", "../a", "poll", "lookup:a", "a\"b", "a\\b", "<a&b>", "a.b", "a?", "a+",
+	"(a)", "[a]", "a$", "^a", "a|b", "a b", "ÅSA", strings.Repeat("n", 300)}
+
+// Exotic draws one exotic name; histories add it to their name pool so that every history has
+// a few calls on one such name without thinning out the histories of the ordinary names.
+func Exotic(rt *rapid.T) string { return rapid.SampledFrom(ExoticNames).Draw(rt, "exotic-name") }
+
 var ValuePool = [][]byte{{}, []byte("x"), []byte("y"), []byte("zz"), nil, []byte(" "), []byte("x\n"), []byte("x")}
 var vsels = []string{"zero", "active", "latest", "next", "existing", "existing", "deleted", "huge", "abs"}
 var opKindsMut = []string{"put", "put", "put", "activate", "activate", "delver", "delver", "del", "get", "getver", "cond", "info", "list"}
@@ -786,6 +801,9 @@ func GenHistory(rt *rapid.T, minLen, maxLen int) []Op {
 	// weight the ordinary names, the first one most
 	names = append(names, BaseNames...)
 	names = append(names, "a", "a", "a", "b")
+	if ex := Exotic(rt); true {
+		names = append(names, ex, ex)
+	}
 	// about half of a history's calls go to one focus name, so that deep per-name histories
 	// (several versions, deletions among them, re-activations) are common
 	if lo := rapid.SampledFrom([]int{1, 1, 8, 15}).Draw(rt, "minlen"); lo > minLen && lo <= maxLen {
